@@ -686,15 +686,23 @@ Lemma server_message_refuted :
 Proof. vm_compute. split; reflexivity. Qed.
 
 (** The programs of the stage syntax are programs: the generated cases are instances. *)
+Lemma nested_core_agree ichain script c m s :
+  nested_core true ichain script c m s = nested_core false ichain script c m s.
+Proof. unfold nested_core. rewrite item_chain_correct. reflexivity. Qed.
+
 Theorem generated_cases_agree :
   (forall chain c m, c_run_client true chain c m = c_run_client false chain c m) /\
   (forall chain script c m, c_run_server true chain script c m = c_run_server false chain script c m) /\
-  (forall chain script c items, c_run_items true chain script c items = c_run_items false chain script c items).
+  (forall chain script c items, c_run_items true chain script c items = c_run_items false chain script c items) /\
+  (forall mchain ichain script c m, c_run_nested true mchain ichain script c m = c_run_nested false mchain ichain script c m).
 Proof.
-  split; [|split].
+  split; [|split; [|split]].
   - intros. apply client_chain_correct.
   - intros. apply server_chain_correct.
   - intros. apply batch_items_correct.
+  - intros. unfold c_run_nested. cbv beta iota zeta.
+    rewrite server_chain_spec by (apply Nat.lt_succ_r, Nat.le_sub_l). cbn [skipn].
+    rewrite (spec_from_ext _ _ _ _ (compile_all 0 mchain) 0 _ _ (nested_core_agree ichain script)). reflexivity.
 Qed.
 
 Lemma retry_example :
